@@ -470,5 +470,6 @@ def main(rep, tier):
     rep.floor("R6", "rule instances", len([i for i in rep.instances if i["status"] == "ok"]), 9)
     return rep.finish(
         "Sentence 2 of the statement is decided outright as a path rule on request::Parser::parse (not done => room left, else StuckOnInput "
-        "from that very call); allocation-size provenance and the shape of the alignment expression are checked structurally.",
+        "from that very call); allocation-size provenance; the alignment function decided on values (E8); record-end buffering discipline; configuration and "
+        "buffer of a parser never separated after construction.",
         not_decided="sentence 1: that pairs within B-13 never cause StuckOnInput for any segmentation/chunking (arithmetic over runtime lengths); usize::MAX is not a multiple of 8 in the overflow corner (documented behaviour)")
